@@ -304,9 +304,11 @@ def run(run: core.Run):
             for m in ms(n):
                 cases.append({"family": "svd", "n": n, "cond": cond, "m": m, "seed": run.seed})
     for col in (0, 1):
-        for factor in (1e100, 1e-100, 1e8, 1e-8):
+        for factor in (1e100, 1e-100, 1e8, 1e-8, -1.0, -1e-8, -3e5):  # negative: an entirely negative column (a bleach)
             for m in (2, 3, 40):
                 cases.append({"family": "scaled", "rates": [0.1, 1.0], "col": col, "factor": factor, "m": m, "seed": run.seed})
+                if factor < 0:
+                    cases.append({"family": "scaled", "rates": [0.1, 1.0, 7.0], "col": col, "factor": factor, "m": m + 2, "seed": run.seed})
     run.map("matrix", cases)
     run.map("dispatch", [{"function": f, "rates": r} for f in ("variable_projection", "non_negative_least_squares")
                          for r in ([0.1], [10.0], [0.1, 1.0], [0.1, 1.0, 10.0], [0.1, 0.11, 1.0, 10.0])])  # fmt: skip
